@@ -219,6 +219,28 @@ def holdsC03vals (C : Cls) (tt : TypeTable) (segs : List OSeg) (args : List GoVa
       | none => false
     | _ => true
 
+/-- the driver texts of every node of a value tree (fuel = depth) -/
+def GoVal.texts : Nat → GoVal → List String
+  | 0, _ => []
+  | _, .invalid => []
+  | _, .leaf h => [h.r]
+  | n+1, .struct h fs => h.r :: fs.flatMap (GoVal.texts n)
+  | _, .ptr h none => [h.r]
+  | n+1, .ptr h (some p) => h.r :: GoVal.texts n p
+  | _, .map h none => [h.r]
+  | n+1, .map h (some kv) => h.r :: kv.flatMap (fun e => GoVal.texts n e.2)
+  | n+1, .slice h els => h.r :: els.flatMap (GoVal.texts n)
+  | _, .iface h none => [h.r]
+  | n+1, .iface h (some p) => h.r :: GoVal.texts n p
+
+/-- C03, weakest value-level form, for every statement: each value handed to the driver is
+    the driver text of some value inside the supplied arguments - nothing is made up,
+    truncated or converted on the way -/
+def holdsC03present (args : List GoVal) (o : BindObs) : Bool :=
+  if !(o.prepOk && o.bindOk) || o.mode == "none" then true else
+  let present := args.flatMap (GoVal.texts 16)
+  o.params.all fun p => present.contains p.2
+
 /-! ### agreement and attribution -/
 
 def insertErrClasses : List String :=
@@ -267,7 +289,7 @@ def affected (m : BindModel) (o : BindObs) : List String :=
         let pdiff : List String :=
           if mparams == o.params then [] else
           match (mparams.zip o.params).find? (fun (a, b) => a != b) with
-          | some ((n, _), _) => [if ins.contains ((paramNum n).getD 0) then "C04" else "C03"]
+          | some ((n, _), _) => if ins.contains ((paramNum n).getD 0) then ["C04", "C03"] else ["C03"]
           | none => ["C03"]
         pdiff ++ (if mode == o.mode then [] else ["C05"])
 
